@@ -72,6 +72,9 @@ def segment(src: str, tree: ast.AST, qual: str):
 
 def apply_variant(v: Variant, root: Path):
     """Edit the scratch tree in place. Returns None on success, or a reason string when not applicable."""
+    if v.module == '*':
+        # a package-wide edit: `repl` is a callable over the scratch root, returns None or the reason it does not apply
+        return v.repl(root)
     path = root / PKG_REL / v.module
     if not path.exists():
         return f'module {v.module} not found'
